@@ -10,23 +10,33 @@ import (
 
 // standard seeds shared by the history-quantified properties
 const (
-	scStatic3   = "static:3:45"
-	scStatic4   = "static:4:56"
-	scSilent4   = "silent:4:60:3:14"
-	scSilent5   = "silent:5:70:4:10"
-	scLate4     = "late:36"
-	scJoin3     = "join:3:5:84"
-	scLeave4    = "leave:4:6:84"
-	scJoin2     = "join:2:4:60"
-	scTwoLeaves = "twoleaves:5:8:90"
-	scJoinLeave = "joinleave:4:6:84"
-	scLaggards7 = "laggards:7:2:14:60:70"
-	scLaggards4 = "laggards:4:1:8:40:50"
-	scRejoin4   = "rejoin:4:6:50:90"
-	scRefused3  = "refused:3:5:84"
-	scPart4     = "partition:4:2:10:24:40"
-	scPart5     = "partition:5:3:10:30:50"
-	scDups3     = "dups:3:45"
+	scStatic3    = "static:3:45"
+	scStatic4    = "static:4:56"
+	scSilent4    = "silent:4:60:3:14"
+	scSilent5    = "silent:5:70:4:10"
+	scLate4      = "late:36"
+	scJoin3      = "join:3:5:84"
+	scLeave4     = "leave:4:6:84"
+	scJoin2      = "join:2:4:60"
+	scTwoLeaves  = "twoleaves:5:8:90"
+	scJoinLeave  = "joinleave:4:6:84"
+	scLaggards7  = "laggards:7:2:14:60:70"
+	scLaggards4  = "laggards:4:1:8:40:50"
+	scRejoin4    = "rejoin:4:6:50:90"
+	scRefused3   = "refused:3:5:84"
+	scPart4      = "partition:4:2:10:24:40"
+	scPart5      = "partition:5:3:10:30:50"
+	scDups3      = "dups:3:45"
+	scUnknownItx = "unknownitx:3:6:50"
+	// irregular schedules (one validator initiating four times less often) with a leave / a join + a leave at
+	// step 8, picked offline among 2400 such schedules: in these, fame elections stay open long enough for a
+	// validator-set change to become effective while some node has not yet delivered the block that carries
+	// it if the six-round margin is shortened (seeded change C01-peerset-effective-one-round-early)
+	scIrrA = "irregular:4:183:200:1"
+	scIrrB = "irregular:4:802:200:1"
+	scIrrC = "irregular:4:706:200:3"
+	scIrrD = "irregular:4:1036:200:3"
+	scIrrE = "irregular:4:1142:200:3"
 )
 
 func nodesOf(n int) []int {
@@ -53,12 +63,12 @@ func standardPhases(mons []string, suffix int, thorough bool) []Phase {
 		add("S1 n=3 depth 5 {6 gossip pairs,T0,T1,T2}", s1Items("s1:3:0", 5, 2, mons))
 	}
 	// S3: deviation bounded around fair seeds
-	seeds := []string{scStatic3, scStatic4, scSilent4, scSilent5, scLate4, scJoin3, scLeave4, scJoin2, scTwoLeaves, scJoinLeave, scLaggards7, scLaggards4, scRejoin4, scRefused3, scPart4, scPart5, scDups3}
+	seeds := []string{scStatic3, scStatic4, scSilent4, scSilent5, scLate4, scJoin3, scLeave4, scJoin2, scTwoLeaves, scJoinLeave, scLaggards7, scLaggards4, scRejoin4, scRefused3, scPart4, scPart5, scDups3, scIrrA, scIrrB, scIrrC, scIrrD, scIrrE, scUnknownItx}
 	var d0 []sched.Item
 	for _, s := range seeds {
 		d0 = append(d0, s3Items(s, 0, nil, nil, mons, suffix)...)
 	}
-	add("S3 d=0 on 17 seeds (static 3/4, silent 4/5, late witness, join 3->4, leave 4->3, join 2->3, two leaves in one block, join+leave in one block, 2 one-way laggards of 7, 1 of 4, leave then re-join, join refused by the application, partitions 2|2 and 3|2 that heal, identical transaction bytes submitted repeatedly at one node and at several nodes)", d0)
+	add("S3 d=0 on 23 seeds (static 3/4, silent 4/5, late witness, join 3->4, leave 4->3, join 2->3, two leaves in one block, join+leave in one block, 2 one-way laggards of 7, 1 of 4, leave then re-join, join refused by the application, partitions 2|2 and 3|2 that heal, identical transaction bytes submitted repeatedly at one node and at several nodes, five irregular 200-step schedules with a leave or a join + leave and slow fame elections, signed internal transactions of an unknown type)", d0)
 	// S2: seed prefix + exhaustive window + fair suffix
 	w3 := "win:3:-1:" + scStatic3
 	wj := "win:4:-1:" + scJoin3
@@ -126,6 +136,8 @@ func standardPhases(mons []string, suffix int, thorough bool) []Phase {
 		add("S3 d<=1 join refused by the application (every 2nd position, level 0)", s3Items(scRefused3, 1, seedPositions(scRefused3, 0, 0, 2), devAlphabet(nodesOf(3), 0, 0), mons, suffix))
 		add("S3 d<=1 partition 2|2 that heals (every 2nd position, level 0)", s3Items(scPart4, 1, seedPositions(scPart4, 0, 0, 2), devAlphabet(nodesOf(4), 0, 0), mons, suffix))
 		add("S3 d<=1 one-way laggard of 4 (every 2nd position, level 0)", s3Items(scLaggards4, 1, seedPositions(scLaggards4, 0, 0, 2), devAlphabet(nodesOf(4), 0, 0), mons, suffix))
+		add("S3 d<=1 irregular schedule 183 with a leave and slow elections (every 4th position, level 0)", s3Items(scIrrA, 1, seedPositions(scIrrA, 0, 0, 4), devAlphabet(nodesOf(4), 0, 0), mons, suffix))
+		add("S3 d<=1 irregular schedule 706 with a join + leave and slow elections (every 4th position, level 0)", s3Items(scIrrC, 1, seedPositions(scIrrC, 0, 0, 4), devAlphabet(nodesOf(5), 0, 0), mons, suffix))
 		add("S3 d<=1 two laggards of 7 (every 8th position, level 0)", s3Items(scLaggards7, 1, seedPositions(scLaggards7, 0, 0, 8), devAlphabet(nodesOf(7), 0, 0), mons, suffix))
 		// S2 after the single deviations: length-3 windows are the most expensive phases
 		add("S2 static3, windows at 8,12,15,17,20,22,26,30, length 3 over 12 actions", s2Items(w3, []int{8, 12, 15, 17, 20, 22, 26, 30}, 3, n3, mons, suffix))
